@@ -154,6 +154,30 @@ func modT(j int, slot int32) []byte {
 	return m.Encode()
 }
 
+// modU: a second table owner ("u"): exports tab2 and callslot2(slot, x) = tab2[slot](x).
+func modU() []byte {
+	m := &wasmb.Module{}
+	i32 := []wasmb.ValType{wasmb.I32}
+	ti := m.AddType(i32, i32)
+	m.Tables = []wasmb.Table{{Elem: wasmb.FuncRef, Lim: wasmb.Limits{Min: 4}}}
+	m.Exports = append(m.Exports, wasmb.Export{Name: "tab2", Kind: wasmb.KindTable, Idx: 0})
+	m.AddFunc([]wasmb.ValType{wasmb.I32, wasmb.I32}, i32, nil, (&wasmb.Code{}).LocalGet(1).LocalGet(0).CallIndirect(ti, 0).B, "callslot2")
+	return m.Encode()
+}
+
+// modK: "glue" without any function reference of its own (no element segment, no export, no ref.func):
+// it imports a.tab and u.tab2 and its START function copies a.tab[0] (A's inc) into u.tab2[1].  From then
+// on u's table refers to A through nothing but this module.
+func modK() []byte {
+	m := &wasmb.Module{}
+	m.Imports = append(m.Imports,
+		wasmb.Import{Module: "a", Name: "tab", Kind: wasmb.KindTable, Table: wasmb.Table{Elem: wasmb.FuncRef, Lim: wasmb.Limits{Min: 4}}},
+		wasmb.Import{Module: "u", Name: "tab2", Kind: wasmb.KindTable, Table: wasmb.Table{Elem: wasmb.FuncRef, Lim: wasmb.Limits{Min: 4}}})
+	st := m.AddFunc(nil, nil, nil, (&wasmb.Code{}).I32Const(1).I32Const(0).I32Const(1).TableCopy(1, 0).B, "")
+	m.Start = &st
+	return m.Encode()
+}
+
 // modG imports NOTHING of A but its immutable funcref global; viaglob(x) puts the reference into its own
 // table and calls it.
 func modG() []byte {
@@ -234,6 +258,9 @@ type runner struct {
 	everA           bool
 	curM            int // index of the open host module "hostm" (-1 none)
 	everM           bool
+	curU            int // index of the open second table owner "u" (-1 none)
+	everU           bool
+	uHolds          int // definer whose inc a glue module copied into u.tab2[1] (-1 none)
 	poison          bool         // custom allocator whose Free poisons the memory
 	freed           int          // buffers freed so far (only the real side ever closes anything mid-run)
 	extra           []api.Module // anonymous second instances of the definer's compiled module
@@ -384,7 +411,7 @@ func poisonDiff(got, want string) bool {
 func (c09) Run(t *tape.Tape, cfg sim.Config) (res sim.Result) {
 	old := debug.SetGCPercent(-1)
 	defer debug.SetGCPercent(old)
-	r := &runner{t: t, res: &res, ctx: context.Background(), engine: cfg.Engine, curA: -1, curM: -1}
+	r := &runner{t: t, res: &res, ctx: context.Background(), engine: cfg.Engine, curA: -1, curM: -1, curU: -1, uHolds: -1}
 	if cfg.Class == "dangling-reference" {
 		return r.dangling()
 	}
@@ -407,6 +434,16 @@ func (c09) Run(t *tape.Tape, cfg sim.Config) (res sim.Result) {
 		r.forceKinds = []byte{'A', 'T', 'T', 'T'}
 		r.followUp = []int{0, 0, 0, 0, 400}
 		res.Stat("probe.focus_own_function_types", 1)
+	}
+	if len(r.forceKinds) == 0 && t.Chance(1, 6) {
+		// focus: a glue module copies A's function into the second owner's table; then the glue module and
+		// A are dropped, collected, something else is compiled, and the second owner calls the entry
+		r.forceKinds = []byte{'A', 'U', 'K'}
+		r.followUp = []int{0, 0, 0, 602, 600, 6, 0, 6, 500}
+		if t.Chance(1, 2) {
+			r.followUp = []int{0, 0, 0, 602, 6, 0, 6, 500, 600, 6, 0, 6, 500}
+		}
+		res.Stat("probe.focus_glue_module", 1)
 	}
 	for i := 0; i < nops && res.Violation == nil; i++ {
 		r.step(shared)
@@ -464,6 +501,10 @@ func (r *runner) instantiateOn(s *side, kind byte, k int32, via int, rtIdx int) 
 		bin = modH()
 	case 'T':
 		bin = modT(int(k), 1+k%3)
+	case 'U':
+		bin, name = modU(), "u"
+	case 'K':
+		bin = modK()
 	}
 	rt := s.rts[rtIdx]
 	in := &instance{kind: kind, k: k, rt: rtIdx, definer: -1, glob: -1, slots: [3]int{-1, -1, -1}}
@@ -612,6 +653,38 @@ func (r *runner) step(shared bool) {
 		k = r.followUp[0]
 		r.followUp = r.followUp[1:]
 	}
+	if k >= 600 {
+		// forced: close and drop instance k-600
+		if i := k - 600; i < len(r.real.insts) && !r.real.insts[i].dropped && i != r.real.pausedInst {
+			in := r.real.insts[i]
+			if !in.closed {
+				in.mod.Close(r.ctx)
+				in.closed = true
+				if i == r.curA {
+					r.curA = -1
+				}
+				if i == r.curU {
+					r.curU = -1
+				}
+			}
+			if in.compiled != nil {
+				in.compiled.Close(r.ctx)
+			}
+			in.mod, in.compiled = nil, nil
+			in.dropped = true
+			r.closedOrDropped = true
+			r.res.Stat("fault.drop_host_references", 1)
+			r.log("drop #%d (%c) [focus]", i, in.kind)
+		}
+		return
+	}
+	if k == 500 {
+		if r.curU >= 0 && r.real.pausedInst < 0 {
+			x := uint64(t.Choose(100))
+			r.compareCall(fmt.Sprintf("call #%d U.callslot2(1,%d) [entry copied by a glue module from #%d's table; glue or definer dropped and collected]", r.curU, x, r.uHolds), r.curU, "callslot2", 1, x)
+		}
+		return
+	}
 	if k == 400 {
 		// close the compilation of the OLDEST live module with a type of its own, then let the rest follow
 		first, last := -1, -1
@@ -678,7 +751,7 @@ func (r *runner) step(shared bool) {
 	}
 	switch k {
 	case 0: // instantiate
-		kind := "ABCDEGHMT"[t.Weighted(3, 3, 3, 2, 3, 2, 2, 1, 3)]
+		kind := "ABCDEGHMTUK"[t.Weighted(3, 3, 3, 2, 3, 2, 2, 1, 3, 1, 2)]
 		if r.forceImporter {
 			kind = 'B'
 			r.forceImporter = false
@@ -698,6 +771,15 @@ func (r *runner) step(shared bool) {
 		}
 		if kind == 'H' && r.curM < 0 {
 			kind = 'M'
+		}
+		if kind == 'K' && r.curU < 0 {
+			kind = 'U'
+		}
+		if kind == 'U' && r.everU {
+			kind = 'C'
+		}
+		if kind == 'K' && r.curA < 0 {
+			kind = 'A'
 		}
 		if kind == 'M' && r.everM {
 			kind = 'C' // one host module per run (the twin never closes it: the name stays taken there)
@@ -787,8 +869,17 @@ func (r *runner) step(shared bool) {
 			r.curM = len(r.real.insts) - 1
 			r.everM = true
 		}
+		if kind == 'U' {
+			r.curU = len(r.real.insts) - 1
+			r.everU = true
+		}
+		if kind == 'K' {
+			ri.definer, ti.definer = r.curA, r.curA
+			r.uHolds = r.curA
+			r.res.Stat("probe.glue_module_copied_a_reference_between_two_tables", 1)
+		}
 	case 1: // call
-		i := r.pickInst("ABCDEGHT", true)
+		i := r.pickInst("ABCDEGHTU", true)
 		if i < 0 || i == r.real.pausedInst {
 			return
 		}
@@ -805,6 +896,9 @@ func (r *runner) step(shared bool) {
 			}
 		case 'E':
 			r.compareCall(fmt.Sprintf("call #%d E.mul(%d)", i, x), i, "mul", x)
+		case 'U':
+			slot := uint64(t.Choose(3))
+			r.compareCall(fmt.Sprintf("call #%d U.callslot2(%d,%d) [slot 1 holds what a glue module copied from #%d's table]", i, slot, x, r.uHolds), i, "callslot2", slot, x)
 		case 'T':
 			slot := uint64(t.Choose(4))
 			r.compareCall(fmt.Sprintf("call #%d T.tcall(%d,%d) [call_indirect with its own %d-parameter type]", i, slot, x, 2+in.k), i, "tcall", slot, x)
@@ -869,12 +963,15 @@ func (r *runner) step(shared bool) {
 			r.log("passref A#%d -> C#%d.slot%d err=%v", a, c, slot, err)
 		}
 	case 3: // close instance
-		i := r.pickInst("ABCDEGHMT", true)
+		i := r.pickInst("ABCDEGHMTUK", true)
 		if i < 0 || i == r.real.pausedInst {
 			return
 		}
 		in := r.real.insts[i]
 		err := in.mod.Close(r.ctx)
+		if i == r.curU {
+			r.curU = -1
+		}
 		in.closed = true
 		r.closedOrDropped = true
 		if i == r.curA {
@@ -914,7 +1011,7 @@ func (r *runner) step(shared bool) {
 		r.res.Stat("fault.close_compiled", 1)
 		r.log("closeCompiled #%d err=%v", i, err)
 	case 5: // drop the harness's references
-		i := r.pickInst("ABCDEGHMT", false)
+		i := r.pickInst("ABCDEGHMTUK", false)
 		if i < 0 || i == r.real.pausedInst {
 			return
 		}
@@ -928,6 +1025,9 @@ func (r *runner) step(shared bool) {
 			if i == r.curM {
 				r.curM = -1
 			}
+			if i == r.curU {
+				r.curU = -1
+			}
 		}
 		if in.compiled != nil {
 			in.compiled.Close(r.ctx)
@@ -938,7 +1038,11 @@ func (r *runner) step(shared bool) {
 			r.followUp = []int{0, 6, 100 + int(1+in.k%3)}
 			r.forceImporter = true
 		}
-		if in.kind == 'A' || in.kind == 'M' {
+		if (in.kind == 'A' && r.uHolds == i || in.kind == 'K') && r.curU >= 0 && r.uHolds >= 0 && t.Chance(2, 3) {
+			// the glue module or the definer behind u's copied entry is gone: collect, compile something,
+			// collect, call through u's table
+			r.followUp = []int{6, 0, 6, 500}
+		} else if in.kind == 'A' || in.kind == 'M' {
 			// a definer is gone: collect, let another compilation happen (the engine's bookkeeping of compiled
 			// code moves), collect again, then use what imports from it
 			for j, o := range r.real.insts {
